@@ -30,25 +30,28 @@ CORPUS = {
                     "    except Exception:\n        reveal_type(x)\n    with open('f') as fh:\n        y = 1\n        y = 2\n        y = 3\n    reveal_type(y)\n"),
 }
 
+KNOWN_HISTORY = set()   # corpus files whose shared-Checker difference is known finding D22 (none in the corpus: D22 has its own witness)
+
 RUNNER = r'''
 import json, sys, io, contextlib
 sys.path.insert(0, sys.argv[1])
-from replay.checkcode import check_code
+from replay.checkcode import check_code, make_checker
 corpus = json.load(open(sys.argv[2]))
 order = sys.argv[3].split(",")
+shared = make_checker() if len(sys.argv) > 4 and sys.argv[4] == "shared" else None
 out = {}
 for name in order:
-    res = check_code(corpus[name])
+    res = check_code(corpus[name], checker=shared) if shared is not None else check_code(corpus[name])
     import re
     out[name] = sorted([f.get("lineno"), f["code"].name, re.sub(r"verif_mod_\d+", "verif_mod", f["description"])] for f in res if f.get("code") is not None)
 print(json.dumps(out))
 '''
 
 
-def _run(seed, order, corpus_path, runner_path, root):
+def _run(seed, order, corpus_path, runner_path, root, shared=False):
     env = dict(os.environ)
     env["PYTHONHASHSEED"] = str(seed)
-    p = subprocess.run([sys.executable, runner_path, root, corpus_path, ",".join(order)], capture_output=True, text=True, env=env, timeout=300)
+    p = subprocess.run([sys.executable, runner_path, root, corpus_path, ",".join(order)] + (["shared"] if shared else []), capture_output=True, text=True, env=env, timeout=300)
     if p.returncode != 0:
         raise RuntimeError(p.stderr[-800:])
     return json.loads(p.stdout.strip().splitlines()[-1])
@@ -78,6 +81,14 @@ def search():
                 a = [x for x in base[n] if x not in rev[n]][:1]
                 b = [x for x in rev[n] if x not in base[n]][:1]
                 return f"{n}: diagnostics depend on what was checked before in the same process: {a} vs {b}"
+        # one Checker shared by all files (as a run over several files does), in both orders, against the fresh-Checker baseline
+        for order in (names, list(reversed(names))):
+            sh = _run(0, order, cpath, rpath, root, shared=True)
+            for n in names:
+                if sh[n] != base[n] and n not in KNOWN_HISTORY:
+                    a = [x for x in base[n] if x not in sh[n]][:1]
+                    b = [x for x in sh[n] if x not in base[n]][:1]
+                    return f"{n}: diagnostics differ between a fresh Checker and a Checker that has already checked {order[:order.index(n)]}: {a} vs {b}"
     finally:
         for p in (cpath, rpath):
             os.unlink(p)
